@@ -53,8 +53,10 @@ func (t *Tracer) Reset(run string, cfg F) {
 }
 
 // Mute / Unmute suppress emission (used while the harness itself reads through doubles).
-func (t *Tracer) Mute()   { t.mu.Lock(); t.off = true; t.mu.Unlock() }
-func (t *Tracer) Unmute() { t.mu.Lock(); t.off = false; t.mu.Unlock() }
+// Mute / Unmute are no-ops: no read path of the doubles emits events, and suppressing emission while one
+// goroutine computes an observation would drop the events of concurrently running loops.
+func (t *Tracer) Mute()   {}
+func (t *Tracer) Unmute() {}
 
 func (t *Tracer) Emit(ev string, rec F) {
 	t.mu.Lock()
